@@ -1106,7 +1106,13 @@ package cose
 //@         && (t == 4 ==> len(pBytes(p, -1)) > 0)
 //@         && (alg != 0 ==> algOfCurve(t, pCurve(p)) == alg)
 
+// the material the requested operation needs is present (op 1 = sign, 2 = verify)
+//@ spec keyOpOK(t KeyType, p map[any]any, op KeyOp) Bool =
+//@            (t == 2 ==> (op == 2 ==> len(pBytes(p, -2)) > 0 && len(pBytes(p, -3)) > 0) && (op == 1 ==> len(pBytes(p, -4)) > 0))
+//@         && (t == 1 ==> (op == 2 ==> len(pBytes(p, -2)) > 0) && (op == 1 ==> len(pBytes(p, -4)) > 0))
+
 //@ func (Key).validate
+//@   ensures iff [C14, C15]: result == nil <==> (k.Type != 0 && keyShapeOK(k.Type, k.Params, k.Algorithm) && keyOpOK(k.Type, k.Params, op))
 //@   ensures shape [C06, C14, C15]: result == nil ==> k.Type != 0 && keyShapeOK(k.Type, k.Params, k.Algorithm)
 //@   ensures op_sign [C06, C15]: result == nil && op == 1 && (k.Type == 2 || k.Type == 1) ==> len(pBytes(k.Params, -4)) > 0
 //@   ensures op_verify [C06, C15]: result == nil && op == 2 ==> (k.Type == 2 ==> len(pBytes(k.Params, -2)) > 0 && len(pBytes(k.Params, -3)) > 0) && (k.Type == 1 ==> len(pBytes(k.Params, -2)) > 0)
@@ -1124,6 +1130,7 @@ package cose
 
 //@ func (*Key).PublicKey
 //@   requires nonnil: k != nil
+//@   ensures iff [C14, C15]: result1 == nil <==> (k.Type != 0 && keyShapeOK(k.Type, k.Params, k.Algorithm) && keyOpOK(k.Type, k.Params, 2) && algOfCurve(k.Type, pCurve(k.Params)) != 0)
 //@   ensures ok [C06, C14, C15]: result1 == nil ==> keyShapeOK(k.Type, k.Params, k.Algorithm) && algOfCurve(k.Type, pCurve(k.Params)) != 0
 //@         && (k.Type == 2 ==> len(pBytes(k.Params, -2)) > 0 && len(pBytes(k.Params, -3)) > 0)
 //@         && (k.Type == 2 ==> result0 is *ecdsa.PublicKey && result0.(*ecdsa.PublicKey) != nil && fresh(result0.(*ecdsa.PublicKey))
@@ -1136,6 +1143,8 @@ package cose
 
 //@ func (*Key).PrivateKey
 //@   requires nonnil: k != nil
+//@   ensures iff [C14, C15]: result1 == nil <==> (k.Type != 0 && keyShapeOK(k.Type, k.Params, k.Algorithm) && keyOpOK(k.Type, k.Params, 1) && algOfCurve(k.Type, pCurve(k.Params)) != 0
+//@         && (k.Type == 2 ==> len(pBytes(k.Params, -2)) > 0 && len(pBytes(k.Params, -3)) > 0))
 //@   ensures ok [C06, C14, C15]: result1 == nil ==> keyShapeOK(k.Type, k.Params, k.Algorithm) && algOfCurve(k.Type, pCurve(k.Params)) != 0 && len(pBytes(k.Params, -4)) > 0
 //@         && (k.Type == 2 ==> result0 is *ecdsa.PrivateKey && result0.(*ecdsa.PrivateKey) != nil && fresh(result0.(*ecdsa.PrivateKey))
 //@               && len(pBytes(k.Params, -2)) > 0 && len(pBytes(k.Params, -3)) > 0
@@ -1151,6 +1160,9 @@ package cose
 
 //@ func (*Key).Signer
 //@   requires nonnil: k != nil
+//@   ensures iff [C14, C15]: result1 == nil <==> ((k.Ops == nil || (exists i Int :: 0 <= i && i < len(k.Ops) && k.Ops[i] == 1))
+//@         && k.Type != 0 && keyShapeOK(k.Type, k.Params, k.Algorithm) && keyOpOK(k.Type, k.Params, 1) && algOfCurve(k.Type, pCurve(k.Params)) != 0
+//@         && (k.Type == 2 ==> len(pBytes(k.Params, -2)) > 0 && len(pBytes(k.Params, -3)) > 0))
 //@   ensures ok [C01, C06, C14, C15]: result1 == nil ==> result0 != nil && (k.Ops == nil || (exists i Int :: 0 <= i && i < len(k.Ops) && k.Ops[i] == 1))
 //@         && len(pBytes(k.Params, -4)) > 0 && (k.Type == 2 || k.Type == 1) && algOfCurve(k.Type, pCurve(k.Params)) != 0
 //@         && (k.Algorithm == 0 || k.Algorithm == algOfCurve(k.Type, pCurve(k.Params)))
@@ -1163,6 +1175,9 @@ package cose
 
 //@ func (*Key).Verifier
 //@   requires nonnil: k != nil
+//@   ensures complete_okp [C14, C15]: (k.Ops == nil || (exists i Int :: 0 <= i && i < len(k.Ops) && k.Ops[i] == 2))
+//@         && k.Type == 1 && keyShapeOK(k.Type, k.Params, k.Algorithm) && keyOpOK(k.Type, k.Params, 2) && algOfCurve(k.Type, pCurve(k.Params)) != 0 ==> result1 == nil
+//@   ensures only_if [C14, C15]: result1 == nil ==> k.Type != 0 && keyShapeOK(k.Type, k.Params, k.Algorithm) && keyOpOK(k.Type, k.Params, 2)
 //@   ensures ok [C01, C06, C14, C15]: result1 == nil ==> result0 != nil && (k.Ops == nil || (exists i Int :: 0 <= i && i < len(k.Ops) && k.Ops[i] == 2))
 //@         && len(pBytes(k.Params, -2)) > 0 && (k.Type == 2 || k.Type == 1) && algOfCurve(k.Type, pCurve(k.Params)) != 0
 //@         && (k.Algorithm == 0 || k.Algorithm == algOfCurve(k.Type, pCurve(k.Params)))
